@@ -102,6 +102,9 @@ def method(interp, obj, name, args, kwargs):
             return interp.contains(obj, args[0])
         if name == "add" and isinstance(obj, set):
             raise Unsupported("adding a symbolic member to a native set")
+        if name in ("issuperset", "__ge__"):
+            # every element of the (symbolic) argument is a member of the concrete set
+            return z_and([interp.contains(obj, x) for x in interp.iterate(args[0])])
         raise Unsupported("set.%s with symbolic argument" % name)
     if isinstance(obj, list):
         return list_method(interp, obj, name, args, kwargs)
@@ -313,6 +316,19 @@ def symdict_method(interp, d, name, args, kwargs):
         return d.s_set(args[0], args[1])
     if name == "__len__":
         return len(d.pairs)
+    if name == "clear":
+        for k, _ in list(d.pairs):
+            if d._concrete_key(k):
+                dict.__delitem__(d, k)
+        d.pairs = []
+        d.nsym = 0
+        return None
+    if name == "popitem":
+        if not d.pairs:
+            raise KeyError("popitem(): dictionary is empty")
+        k, v = d.pairs[-1]
+        d.s_pop(k)
+        return (k, v)
     raise Unsupported("dict.%s" % name)
 
 
